@@ -372,7 +372,8 @@ pub fn compare(imp: &str, model: &str, p: &Proj) -> Option<(String, bool)> {
         if p.swr & 1 != 0 && a[1] != b[1] {
             return Some(("sweep: registers or memory".into(), false));
         }
-        if p.swr & 2 != 0 && doc && a[2] != b[2] {
+        let fdoc = extra(&b, "fdoc=") == Some("1");
+        if p.swr & 2 != 0 && fdoc && a[2] != b[2] {
             return Some(("sweep: documented flags".into(), false));
         }
         if p.swr & 64 != 0 && a[2] != b[2] {
